@@ -430,7 +430,10 @@ fn gen_case(rng: &mut Rng, prop: &str, tier: &str) -> Case {
     let mut sorted: Vec<f32> = scores.iter().cloned().filter(|x| !x.is_nan()).collect();
     sorted.sort_by(|a, b| a.partial_cmp(b).unwrap());
     let finite: Vec<f32> = sorted.iter().cloned().filter(|x| x.is_finite()).collect();
-    let tsel = rng.below(100);
+    // long sequences (default block size) get thresholds near the top in the quick
+    // tier: the extracted model works on unary numbers and would need seconds per scan
+    let big = l > 3000 && (!thorough || rng.chance(4, 5));
+    let tsel = if big { 45 + rng.below(55) } else { rng.below(100) };
     let thr: Option<f32> = if sorted.is_empty() {
         Some(*rng.pick(&[-1000.0f32, 0.0, 5.5]))
     } else if tsel < 10 {
@@ -438,10 +441,14 @@ fn gen_case(rng: &mut Rng, prop: &str, tier: &str) -> Case {
     } else if tsel < 20 {
         Some(*finite.first().unwrap_or(&0.0))
     } else if tsel < 55 {
-        let q = *rng.pick(&[10usize, 50, 90, 99]);
+        let q = if big { 99 } else { *rng.pick(&[10usize, 50, 90, 99]) };
         Some(sorted[(sorted.len() - 1) * q / 100])
     } else if tsel < 70 {
-        Some(scores[rng.below(scores.len() as u64) as usize]).filter(|x| !x.is_nan()).or(Some(0.0))
+        if big {
+            Some(sorted[sorted.len() - 1 - rng.below(sorted.len().min(50) as u64) as usize])
+        } else {
+            Some(scores[rng.below(scores.len() as u64) as usize]).filter(|x| !x.is_nan()).or(Some(0.0))
+        }
     } else if tsel < 82 {
         Some(*sorted.last().unwrap())
     } else if tsel < 88 {
@@ -450,18 +457,18 @@ fn gen_case(rng: &mut Rng, prop: &str, tier: &str) -> Case {
     } else if tsel < 92 {
         Some(*sorted.last().unwrap() + 1.0)
     } else if tsel < 94 {
-        None
+        if big { Some(*sorted.last().unwrap()) } else { None }
     } else if tsel < 96 {
-        Some(0.0)
+        if big { Some(*sorted.last().unwrap()) } else { Some(0.0) }
     } else if tsel < 97 {
-        Some(f32::NEG_INFINITY)
+        if big { Some(*sorted.last().unwrap()) } else { Some(f32::NEG_INFINITY) }
     } else if tsel < 98 {
         Some(f32::INFINITY)
     } else if tsel < 99 {
         Some(f32::NAN)
     } else {
         // just below an attained score
-        let s = scores[rng.below(scores.len() as u64) as usize];
+        let s = if big { *sorted.last().unwrap() } else { scores[rng.below(scores.len() as u64) as usize] };
         Some(if s.is_finite() { s - 0.005 } else { 0.0 })
     };
     let bopt = if b == 256 && rng.chance(1, 2) { None } else { Some(b) };
